@@ -15,7 +15,7 @@
 //   multt A D U L B | add A B | adds A x B | pow M p | taylor M p | whichmax M | whichmin M |
 //   max M | min M | transpose M | transpose2 M | issym M | covar M | kron A B chk | krond A dim v chk |
 //   kron2 A B dA dB chk | had A B | hadc A iA B iB | hadv A V row | dsum A B | dsumn k M1..Mk |
-//   tovv M | sum M | lap M
+//   tovv M | sum M | lap M | lapv lr lc lu lv M
 // Exceptions: exc:dimension (DimensionException), exc:bpp (any other bpp::Exception).
 #include "common.h"
 #include <Bpp/Numeric/Matrix/Matrix.h>
@@ -169,9 +169,13 @@ static std::string doOp(St& s, const Toks& t) {
     return r;
   }
   if (o == "sum") { MP A = a.mat(); return hx(MatrixTools::sumElements(static_cast<const M&>(*A))); }
-  if (o == "lap") {
+  if (o == "lap" || o == "lapv") {
+    // lapv <|rowSol|> <|colSol|> <|u|> <|v|> M: the caller's output vectors have these lengths
+    size_t lr = 0, lc = 0, lu = 0, lv = 0;
+    if (o == "lapv") { lr = a.nat(); lc = a.nat(); lu = a.nat(); lv = a.nat(); }
     MP A = a.mat(); size_t n = A->getNumberOfRows();
-    std::vector<int> rs(n, -7), cs(n, -7); std::vector<double> u(n, 99.0), v(n, 99.0);
+    if (o == "lap") { lr = lc = lu = lv = n; }
+    std::vector<int> rs(lr, -7), cs(lc, -7); std::vector<double> u(lu, 99.0), v(lv, 99.0);
     double c = MatrixTools::lap(*A, rs, cs, u, v);
     std::string r = "cost " + hx(c) + " ; rowsol";
     for (int x : rs) r += " " + std::to_string(x);
